@@ -21,7 +21,7 @@ TECHNIQUE = 'offline history checker over recorded operation sequences against f
 RULE = ('files: multi-chunk multi-segment model files (contiguous, interleaved, strings, timestamps) and DAQmx files; histories of 20-60 '
         'ops; non-trivial = history with >=2 live generators interleaved with >=1 random read; distinct = (file signature, op-kind sequence)')
 ASSUMPTIONS = ['a generator created at step k must deliver the same chunk sequence as one created on a fresh file']
-REQUIRED = ['ops', 'gen_next_checked', 'generators_drained', 'file_generators', 'channel_generators', 'family:model', 'family:daqmx']
+REQUIRED = ['family:long', 'ops', 'gen_next_checked', 'generators_drained', 'file_generators', 'channel_generators', 'family:model', 'family:daqmx']
 N = {'quick': 8000, 'thorough': 100000}
 KINDS = ['index', 'slice', 'read', 'new_gen', 'next_chan', 'next_file']
 
@@ -29,6 +29,8 @@ KINDS = ['index', 'slice', 'read', 'new_gen', 'next_chan', 'next_file']
 def gen_cases(tier, seed):
     for i in range(N[tier]):
         yield {'fam': 'daqmx' if i % 5 == 4 else 'model', 's': seed * 1000003 + i}
+    for i in range(N[tier] // 100):
+        yield {'fam': 'long', 's': seed * 1000003 + i}
 
 
 def shard_setup(ctx):
@@ -48,8 +50,42 @@ def build(case):
             if sum(len(s.chunks) for s in segs) >= 2:
                 break
         return M.encode_file(segs)[0], tuple(s.signature() for s in segs), [s.describe() for s in segs][:4], rng
+    if case['fam'] == 'long':
+        segs = long_file(rng)
+        return M.encode_file(segs)[0], ('long', len(segs)) + tuple(s.signature() for s in segs[-3:]), {'segments': len(segs), 'last': segs[-1].describe()}, rng
     f, _ = DQ.build({'s': case['s']})
     return f.encode()[0], ('daqmx',) + f.signature(), f.describe(), rng
+
+
+def long_file(rng):
+    """100-300 segments; 2-3 channels whose per-segment value counts agree for a long prefix and diverge later
+    (the lazily built per-channel offset index is de-duplicated between channels of the same shape)."""
+    nch = rng.randint(2, 3)
+    nseg = rng.randint(101, 300)
+    div = rng.randint(max(2, nseg - 150), nseg - 1) if rng.random() < 0.8 else rng.randint(1, nseg - 1)
+    paths = [M.qpath('g', 'c%d' % i) for i in range(nch)]
+    t = rng.choice(['i32', 'u8', 'f64'])
+    n0 = rng.choice([1, 2])
+    segs = []
+    for si in range(nseg):
+        s = M.Seg()
+        s.endian = '<'
+        if si == 0:
+            s.listing = [(p, 'full', (t, n0, None)) for p in paths]
+            s.active = [(p, True, (t, n0, None)) for p in paths]
+        elif si == div:
+            # one channel changes its chunk length from here on
+            k = rng.randrange(nch)
+            s.new_obj_list = False
+            s.listing = [(paths[k], 'full', (t, n0 + 1, None))]
+            s.active = [(p, True, (t, n0 + 1, None)) if p == paths[k] else e for (p, hd, ix), e in zip(segs[-1].active, segs[-1].active)]
+        else:
+            s.has_meta, s.new_obj_list = False, False
+            s.active = list(segs[-1].active)
+        for c in range(rng.choice([1, 1, 2])):
+            s.chunks.append({p: M.rand_values(rng, ix[0], ix[1]) for p, ix in s.data_objects()})
+        segs.append(s)
+    return segs
 
 
 def chunk_images(chunk, chans):
